@@ -182,7 +182,9 @@ def summary_equal(a, ka, b, kb):
             return T(False)
         return isna(c, k)
     na_a, na_b = na(a, ka), na(b, kb)
-    if ka == kb and ka != "O":
+    if ka in ("T", "U") and kb in ("T", "U"):
+        same = cell_ident(a, b, "T")       # fixed-width and variable-width strings: the same text
+    elif ka == kb and ka != "O":
         same = cell_ident(a, b, ka)
     else:
         xa, xb = num(a, ka), num(b, kb)
